@@ -240,7 +240,7 @@ func init() {
 				return tuple{[]value(nil), i.nativeErr(err)}
 			}
 			res := valuesOf(out)
-			i.kdfs = append(i.kdfs, kdfRec{in: append(append([]value{}, pw...), salt...), lp: len(pw), out: res, par: fmt.Sprint(N, r, p, keyLen)})
+			i.kdfs = append(i.kdfs, kdfRec{in: append(append([]value{}, pw...), salt...), lp: len(pw), out: append([]value{}, res...), par: fmt.Sprint(N, r, p, keyLen)})
 			return tuple{res, iface{}}
 		}
 		if _, err := nativeScrypt(nil, nil, N, r, p, keyLen); err != nil {
@@ -267,7 +267,7 @@ func init() {
 				i.assume(i.tt.BNot(i.bytesEqTerm(out, rec.out)))
 			}
 		}
-		i.kdfs = append(i.kdfs, kdfRec{in: in, lp: len(pw), out: out, par: par})
+		i.kdfs = append(i.kdfs, kdfRec{in: in, lp: len(pw), out: append([]value{}, out...), par: par})
 		i.stubsHit["scrypt(ideal KDF on symbolic input)"]++
 		return tuple{append([]value{}, out...), iface{}}
 	}
